@@ -685,6 +685,10 @@ func init() {
 						if !strings.HasPrefix(wk, rs) && !strings.HasPrefix(rs, wk) {
 							bad = fmt.Sprintf("writer %s emits [%s] but the reader decodes [%s]", alt[0].fn, wk, rs)
 						}
+					} else if wk != rs && p.reverse && strings.Contains(strings.ToLower(p.name), "footer") && kindsOnly(reverseItems(wItems)) == rs {
+						// the footer is read front to back from Len-footerLen instead of field by field from
+						// the end: the same layout, its placement is what the offsets check below decides
+						wItems = reverseItems(wItems)
 					} else if wk != rs {
 						bad = fmt.Sprintf("writer %s emits [%s] but the reader decodes [%s]", alt[0].fn, wk, rs)
 					}
@@ -736,6 +740,8 @@ func init() {
 				switch {
 				case got == "MISSING" || got == "" && want != "":
 					r.undecided("sig/"+k, fn, pos, "function "+fn+" no longer exists or emits nothing: the format extraction cannot locate this part of the format (renamed/refactored?) — golden: "+want)
+				case fn == "parseFooter" && !strings.ContainsAny(got, "[]{}") && sameSignature(reverseSig(got), want, false):
+					r.ok("sig/"+k, fn, pos, "format v2 (the footer is decoded front to back: the reference order reversed; its placement is WIRE-AGREE's offsets check): "+got)
 				case !sameSignature(got, want, strings.HasPrefix(k, "W ")):
 					r.bad("sig/"+k, fn, pos, "wire signature differs from format v2: now ["+got+"], reference ["+want+"]")
 				default:
@@ -818,6 +824,27 @@ func init() {
 			for _, fn := range c.srcFns {
 				top := fnName(topFn(fn))
 				if top == "ZSTDCompress" || top == "ZSTDDecompress" || fn.Synthetic != "" || fn.Name() == "init" || c.inOnceDo(fn) {
+					continue
+				}
+				// a helper that only the two wrappers call is part of them
+				var onlyWrappers func(f *ssa.Function, depth int) bool
+				onlyWrappers = func(f *ssa.Function, depth int) bool {
+					t := fnName(topFn(f))
+					if t == "ZSTDCompress" || t == "ZSTDDecompress" {
+						return true
+					}
+					sites := c.callsTo(topFn(f))
+					if len(sites) == 0 || depth > 2 || c.usedAsValueOutsideOnce(topFn(f)) {
+						return false
+					}
+					for _, site := range sites {
+						if !onlyWrappers(site.Parent(), depth+1) {
+							return false
+						}
+					}
+					return true
+				}
+				if onlyWrappers(fn, 0) {
 					continue
 				}
 				for _, b := range fn.Blocks {
@@ -1012,6 +1039,11 @@ func (c *Ctx) scanFooterReads(f *ssa.Function, env map[*ssa.Parameter]offVal, de
 						}
 					}
 				}
+				if x.decodeW == 0 {
+					if d := tupleParts(call)[0]; d != nil {
+						x.decodeW = c.decodedWidth(d, 0)
+					}
+				}
 				*reads = append(*reads, x)
 				continue
 			}
@@ -1066,4 +1098,180 @@ func (c *Ctx) footerOffsets(r *Report) {
 		return
 	}
 	r.ok(key, "parseFooter", c.pos(fn.Pos()), fmt.Sprintf("%d contiguous fields from the end, widths match their decodes, total %d = footerLen", len(reads), total))
+}
+
+// reverseSig: a flat signature string with its items in the opposite order.
+func reverseSig(sig string) string {
+	parts := strings.Fields(sig)
+	for i, j := 0, len(parts)-1; i < j; i, j = i+1, j-1 {
+		parts[i], parts[j] = parts[j], parts[i]
+	}
+	return strings.Join(parts, " ")
+}
+
+// decodedWidth: how many leading bytes of buffer value v the function decodes
+// as fixed-width fields, when v is taken apart piecewise - constant-bounded
+// sub-slices that follow one another without gap, each decoded by
+// binary.BigEndian.UintN, or through a bytes.Reader with binary.Read calls
+// (in a loop over a layout table: the sum of the widths of the table's
+// entries).  -1 when the pieces do not line up, 0 when nothing is recognised.
+func (c *Ctx) decodedWidth(v ssa.Value, depth int) int64 {
+	if v.Referrers() == nil || depth > 3 {
+		return 0
+	}
+	type piece struct{ lo, w int64 }
+	var pieces []piece
+	for _, ref := range *v.Referrers() {
+		switch x := ref.(type) {
+		case *ssa.Call:
+			sc := x.Call.StaticCallee()
+			if sc == nil {
+				continue
+			}
+			switch {
+			case strings.Contains(funcFullName(sc), "encoding/binary") && strings.HasPrefix(sc.Name(), "Uint"):
+				switch sc.Name() {
+				case "Uint16":
+					pieces = append(pieces, piece{0, 2})
+				case "Uint32":
+					pieces = append(pieces, piece{0, 4})
+				case "Uint64":
+					pieces = append(pieces, piece{0, 8})
+				}
+			case funcFullName(sc) == "bytes.NewReader":
+				pieces = append(pieces, piece{0, c.readerWidth(x)})
+			}
+		case *ssa.Slice:
+			lo := int64(0)
+			if x.Low != nil {
+				k, ok := constInt(x.Low)
+				if !ok {
+					return -1
+				}
+				lo = k
+			}
+			w := c.decodedWidth(x, depth+1)
+			if w < 0 {
+				return -1
+			}
+			if w > 0 {
+				if x.High != nil {
+					if hi, ok := constInt(x.High); ok && hi-lo != w {
+						return -1 // the piece is not decoded in full
+					}
+				}
+				pieces = append(pieces, piece{lo, w})
+			}
+		}
+	}
+	sort.Slice(pieces, func(i, j int) bool { return pieces[i].lo < pieces[j].lo })
+	var total int64
+	for _, p := range pieces {
+		if p.lo != total {
+			return -1
+		}
+		total += p.w
+	}
+	return total
+}
+
+// readerWidth: the bytes consumed from the bytes.Reader made by mk through
+// binary.Read calls on it: the width of the pointee of each destination, a
+// destination that is the element of a range over a layout table counting as
+// the whole table.
+func (c *Ctx) readerWidth(mk *ssa.Call) int64 {
+	fn := mk.Parent()
+	var total int64
+	for _, b := range fn.Blocks {
+		for _, ins := range b.Instrs {
+			call, ok := ins.(*ssa.Call)
+			if !ok {
+				continue
+			}
+			sc := call.Call.StaticCallee()
+			if sc == nil || funcFullName(sc) != "encoding/binary.Read" {
+				continue
+			}
+			src := call.Call.Args[0]
+			if mi, ok := src.(*ssa.MakeInterface); ok {
+				src = mi.X
+			}
+			if src != ssa.Value(mk) {
+				continue
+			}
+			w := c.destWidth(call.Call.Args[2], call.Block())
+			if w <= 0 {
+				return 0
+			}
+			total += w
+		}
+	}
+	return total
+}
+
+// destWidth: the encoded width of a binary.Read destination: a pointer to a
+// fixed-width integer, or the element of a range over the result of a
+// layout-table function (sum of the widths of the pointers it lists).
+func (c *Ctx) destWidth(dst ssa.Value, at *ssa.BasicBlock) int64 {
+	sizeOfPtr := func(t types.Type) int64 {
+		p, ok := t.Underlying().(*types.Pointer)
+		if !ok {
+			return 0
+		}
+		b, ok := p.Elem().Underlying().(*types.Basic)
+		if !ok {
+			return 0
+		}
+		switch b.Kind() {
+		case types.Uint16, types.Int16:
+			return 2
+		case types.Uint32, types.Int32:
+			return 4
+		case types.Uint64, types.Int64:
+			return 8
+		}
+		return 0
+	}
+	if mi, ok := dst.(*ssa.MakeInterface); ok {
+		return sizeOfPtr(mi.X.Type())
+	}
+	// element of a ranged slice: load of &list[i]
+	ld, ok := dst.(*ssa.UnOp)
+	if !ok || ld.Op != token.MUL {
+		return 0
+	}
+	ia, ok := ld.X.(*ssa.IndexAddr)
+	if !ok {
+		return 0
+	}
+	tcall, ok := ia.X.(*ssa.Call)
+	if !ok {
+		return 0
+	}
+	h := tcall.Call.StaticCallee()
+	if h == nil || !c.inRoot(h) || h.Blocks == nil {
+		return 0
+	}
+	var total int64
+	for _, b := range h.Blocks {
+		for _, ins := range b.Instrs {
+			st, ok := ins.(*ssa.Store)
+			if !ok {
+				continue
+			}
+			if _, isElem := st.Addr.(*ssa.IndexAddr); !isElem {
+				continue
+			}
+			mi, ok := st.Val.(*ssa.MakeInterface)
+			if !ok {
+				return 0
+			}
+			w := sizeOfPtr(mi.X.Type())
+			if w == 0 {
+				return 0
+			}
+			total += w
+		}
+	}
+	return total
 }
